@@ -21,10 +21,15 @@ man = dict(
                   serves_properties=sorted(props.PROPS),
                   kind_free_text="explicit TLA+ specification per family (spec/*.tla); TLC model-checks it, generates "
                                  "states/cases that a Go driver replays into the real library, and judges every "
-                                 "recorded real call with a trace-monitor spec")],
+                                 "recorded real call with a trace-monitor spec"),
+             dict(name="tlc-growth-families", path="lib/grow.py", serves_properties=[],
+                  kind_free_text="bin/grow G01|G02|G03: parts of the specification that cover behaviour outside the listed "
+                                 "properties (shared-type soft resources with a stateful trace spec, plain collections, "
+                                 "NewRequest); they decide no property and print OBSERVATION / DIVERGENCE lines only "
+                                 "(DESIGN.md section 13)")],
     checks=[], not_applicable=[],
     notes="bin/check <ID> <quick|thorough>; exit 0/1/2 = held / reproduced unlisted violation / infrastructure. "
-          "Known findings: known_findings.txt. Design: DESIGN.md.")
+          "Known findings: known_findings.txt. Design: DESIGN.md. Growth families (no property): bin/grow, growth/.")
 for pid in ALL:
     P = props.PROPS.get(pid)
     if not P:
